@@ -697,6 +697,7 @@ fn mutation_label(m: &Mutation) -> String {
 /// Runs `cases` generated cases starting at `start` (cases before are generated and skipped).
 pub fn worker(seed: u64, start: u64, cases: u64, mutations_per_case: usize, inflight: &Path, skip_labels: &[String]) -> WorkerOut {
     alloc::LIMIT_ON.store(true, std::sync::atomic::Ordering::Relaxed);
+    alloc::COUNTING.store(true, std::sync::atomic::Ordering::Relaxed);
     let mut out = WorkerOut::default();
     let out_path = out_file_of(inflight);
     let _ = std::fs::remove_file(&out_path);
@@ -890,6 +891,7 @@ pub fn confirm_in_child(input: &Input, timeout: Duration) -> Option<(String, Str
 /// `vcheck C08 --one <file>`: decode a single input with all oracles; exit 0 ok, 3 violation.
 pub fn run_one(path: &Path) -> i32 {
     alloc::LIMIT_ON.store(true, std::sync::atomic::Ordering::Relaxed);
+    alloc::COUNTING.store(true, std::sync::atomic::Ordering::Relaxed);
     let input: Input = serde_json::from_slice(&std::fs::read(path).expect("input")).expect("input json");
     let frame = unhex(&input.frame_hex);
     let cfg = input.cfg;
